@@ -1,6 +1,9 @@
 package props
 
 import (
+	"go/parser"
+	"go/token"
+	"math/rand"
 	"strings"
 	"testing"
 
@@ -53,5 +56,126 @@ func TestResolveAnonThenHint(t *testing.T) {
 		if m := rc.Resolve(src); !strings.Contains(m, want) {
 			t.Errorf("want %q, got %q for\n%s", want, m, src)
 		}
+	}
+}
+
+// The multi-render oracle on hand-made outputs: NewFilePathName("a.b/c", "q"); references to
+// a.b/c (local), fmt (U: unaliased first, dot hint later) and x.y/d (D: dot first, ordinary
+// hint later); File.Render, ImportAlias("fmt", "."), ImportAlias("x.y/d", "foo"), a fragment,
+// File.Render.
+func TestC06MultiRenderOracle(t *testing.T) {
+	info := &c06multi{Paths: []string{"a.b/c", "fmt", "x.y/d"}, Local: "a.b/c"}
+	h := hist.History{
+		{Kind: "newfilepathname", F: 0, A: "a.b/c", B: "q"},
+		{Kind: "importalias", F: 0, A: "x.y/d", B: "."},
+		{Kind: "render", F: 0}, {Kind: "imports", F: 0},
+		{Kind: "importalias", F: 0, A: "fmt", B: "."},
+		{Kind: "importalias", F: 0, A: "x.y/d", B: "foo"},
+		{Kind: "rcode", F: 0}, {Kind: "imports", F: 0},
+		{Kind: "render", F: 0}, {Kind: "imports", F: 0},
+	}
+	c := &Case{Hist: h, Meta: map[string]interface{}{"c06multi": info}}
+	w := func(s string) hist.Obs { return hist.Obs{Kind: "write", Out: s} }
+	tab := hist.Obs{Kind: "imports", Imports: []hist.Import{{Path: "fmt", Name: "fmt"}, {Path: "x.y/d", Name: ".", Alias: true}}}
+	file := "package q\n\nimport (\n\t\"fmt\"\n\t. \"x.y/d\"\n)\n\nvar _ = V0_1\nvar _ = fmt.V1_2\nvar _ = V2_3\n"
+	frag := "var _ = f(fmt.V1_4, V2_5, V0_6)"
+	good := []hist.Obs{w(file), tab, w(frag), tab, w(file), tab}
+	if m := (c06{}).Oracle(c, good); m != "" {
+		t.Fatalf("good history rejected: %s", m)
+	}
+	with := func(k int, o hist.Obs) []hist.Obs {
+		out := append([]hist.Obs{}, good...)
+		out[k] = o
+		return out
+	}
+	for name, b := range map[string]struct {
+		obs  []hist.Obs
+		want string
+	}{
+		// the later dot hint is applied to the references only
+		"second render writes fmt bare, block unchanged": {with(4, w("package q\n\nimport (\n\t\"fmt\"\n\t. \"x.y/d\"\n)\n\nvar _ = V0_1\nvar _ = V1_2\nvar _ = V2_3\n")), "keeps the form of its first rendering"},
+		// ... to the block only
+		"second render dot-imports fmt, references qualified": {with(4, w("package q\n\nimport (\n\t. \"fmt\"\n\t. \"x.y/d\"\n)\n\nvar _ = V0_1\nvar _ = fmt.V1_2\nvar _ = V2_3\n")), "dot-imports \"fmt\", but the path is written as fmt.X"},
+		// ... to both: consistent Go, but the path changes its form
+		"second render switches fmt to a dot-import":            {with(4, w("package q\n\nimport (\n\t. \"fmt\"\n\t. \"x.y/d\"\n)\n\nvar _ = V0_1\nvar _ = V1_2\nvar _ = V2_3\n")), "keeps the form of its first rendering"},
+		"second render applies the ordinary alias to the block": {with(4, w("package q\n\nimport (\n\t\"fmt\"\n\tfoo \"x.y/d\"\n)\n\nvar _ = V0_1\nvar _ = fmt.V1_2\nvar _ = V2_3\n")), "does not dot-import \"x.y/d\""},
+		"second render qualifies the former dot-import":         {with(4, w("package q\n\nimport (\n\t\"fmt\"\n\tfoo \"x.y/d\"\n)\n\nvar _ = V0_1\nvar _ = fmt.V1_2\nvar _ = foo.V2_3\n")), "keeps the form of its first rendering"},
+		"fragment follows the later dot hint":                   {with(2, w("var _ = f(V1_4, V2_5, V0_6)")), "keeps the form of its first rendering"},
+		"fragment qualifies the local path":                     {with(2, w("var _ = f(fmt.V1_4, V2_5, c.V0_6)")), "keeps the form of its first rendering"},
+		"table disagrees with the fragment":                     {with(3, hist.Obs{Kind: "imports", Imports: []hist.Import{{Path: "fmt", Name: ".", Alias: true}, {Path: "x.y/d", Name: ".", Alias: true}}}), "registers it as \".\""},
+		"table loses the dot-import":                            {with(3, hist.Obs{Kind: "imports", Imports: []hist.Import{{Path: "fmt", Name: "fmt"}, {Path: "x.y/d", Name: "foo", Alias: true}}}), "not as a dot-import"},
+		"table holds the own path":                              {with(1, hist.Obs{Kind: "imports", Imports: append([]hist.Import{{Path: "a.b/c", Name: "c", Alias: true}}, tab.Imports...)}), "holds the File's own path"},
+		"first render qualifies the dot-import":                 {with(0, w("package q\n\nimport (\n\t\"fmt\"\n\td \"x.y/d\"\n)\n\nvar _ = V0_1\nvar _ = fmt.V1_2\nvar _ = d.V2_3\n")), "declared a dot-import at its first rendering but is qualified"},
+		"first render writes fmt bare":                          {with(0, w("package q\n\nimport (\n\t. \"fmt\"\n\t. \"x.y/d\"\n)\n\nvar _ = V0_1\nvar _ = V1_2\nvar _ = V2_3\n")), "written bare at its first rendering"},
+		"own path imported":                                     {with(4, w("package q\n\nimport (\n\t. \"a.b/c\"\n\t\"fmt\"\n\t. \"x.y/d\"\n)\n\nvar _ = V0_1\nvar _ = fmt.V1_2\nvar _ = V2_3\n")), "imports the File's own path"},
+		"import dropped by the second render":                   {with(4, w("package q\n\nimport . \"x.y/d\"\n\nvar _ = V0_1\nvar _ = fmt.V1_2\nvar _ = V2_3\n")), "does not import it"},
+		"alias nobody declared":                                 {with(4, w("package q\n\nimport (\n\t\"fmt\"\n\t. \"x.y/d\"\n)\n\nvar _ = V0_1\nvar _ = fmt1.V1_2\nvar _ = V2_3\n")), "keeps the form of its first rendering"},
+		"second render fails":                                   {with(4, hist.Obs{Kind: "fmterr", Out: "x"}), "did not render"},
+	} {
+		if m := (c06{}).Oracle(c, b.obs); !strings.Contains(m, b.want) {
+			t.Errorf("%s: want %q, got %q", name, b.want, m)
+		}
+	}
+	// unaliased import whose qualifier nothing declares
+	c2 := &Case{Hist: hist.History{{Kind: "newfile", F: 0, A: "p"}, {Kind: "render", F: 0}}, Meta: map[string]interface{}{"c06multi": &c06multi{Paths: []string{"x.y/d"}}}}
+	if m := (c06{}).Oracle(c2, []hist.Obs{w("package p\n\nimport \"x.y/d\"\n\nvar _ = d.V0_1\n")}); !strings.Contains(m, "nothing declares that name") {
+		t.Errorf("undeclared name accepted: %q", m)
+	}
+}
+
+// The stream holds on the unchanged tree, and its tags are honest: a case tagged
+// dot-hint-after-unaliased-render really has a path that the first File.Render imports
+// WITHOUT alias, that is declared a dot-import afterwards, and that a later File.Render
+// writes again.
+func TestC06MultiRenderGenerate(t *testing.T) {
+	r := rand.New(rand.NewSource(3))
+	tagged := 0
+	for n := 0; n < 600; n++ {
+		c := c06MultiCase(r)
+		got := hist.NewWorld().Exec(c.Hist)
+		if m := (c06{}).Oracle(c, got); m != "" {
+			t.Fatalf("oracle fails on the unchanged tree: %s\n%s", m, c.Hist.Sexp())
+		}
+		if !hasTag(c, "dot-hint-after-unaliased-render") {
+			continue
+		}
+		tagged++
+		oi, renders := 0, 0
+		unaliased := map[string]bool{}
+		dotted := map[string]bool{}
+		ok := false
+		for _, op := range c.Hist {
+			switch op.Kind {
+			case "importalias":
+				if op.B == "." && unaliased[op.A] {
+					dotted[op.A] = true
+				}
+			case "imports", "rcode":
+				oi++
+			case "render":
+				renders++
+				src := got[oi].Out
+				oi++
+				pf, err := parser.ParseFile(token.NewFileSet(), "x.go", src, parser.ImportsOnly)
+				if err != nil {
+					t.Fatal(err)
+				}
+				specs, _ := parseImports(pf)
+				for _, sp := range specs {
+					if renders == 1 && sp.name == "" {
+						unaliased[sp.path] = true
+					}
+					if renders > 1 && dotted[sp.path] && sp.name == "" {
+						ok = true
+					}
+				}
+			}
+		}
+		if !ok {
+			t.Fatalf("tag dot-hint-after-unaliased-render is not honest for %s", c.Hist.Sexp())
+		}
+	}
+	if tagged < 300 {
+		t.Errorf("only %d of 600 cases tagged", tagged)
 	}
 }
